@@ -6,6 +6,7 @@ use serde_json::{json, Value};
 pub mod disk;
 pub mod env;
 pub mod model;
+pub mod procsim;
 
 pub fn worker_init(_ctx: &mut WorkerCtx) {}
 
@@ -14,6 +15,7 @@ pub fn run_job(ctx: &mut WorkerCtx, job: &Value) -> JobOutput {
         "disk" => disk::run(ctx, job),
         "env" => env::run(ctx, job),
         "model" => model::run(ctx, job),
+        "proc" => procsim::run(ctx, job),
         "canary_abort" => {
             // selftest only: a worker death must be attributed to the job in flight
             std::process::abort();
